@@ -124,6 +124,7 @@ var (
 	reSync   = regexp.MustCompile(`(?:fsync|fdatasync)\((\d+)\s*\)\s*=\s*0`)
 	reRename = regexp.MustCompile(`rename(?:at2?)?\((?:AT_FDCWD, )?"([^"]+)", (?:AT_FDCWD, )?"([^"]+)"(?:, [A-Z_0-9|]+)?\s*\)\s*=\s*0`)
 	reClose  = regexp.MustCompile(`close\((\d+)\s*\)\s*=\s*0`)
+	reUnlink = regexp.MustCompile(`unlink(?:at)?\((?:AT_FDCWD, )?"([^"]+)"(?:, [A-Z_0-9|]+)?\s*\)\s*=\s*0`)
 	reMark   = regexp.MustCompile(`write\(2, "VERIF-SECOND-SAVE`)
 )
 
@@ -203,6 +204,9 @@ func observedSave(cfg CheckConfig, res *hx.Result, dir string) error {
 			if p, ok := fds[m[1]]; ok {
 				ops = append(ops, "sync:"+short(p))
 			}
+		} else if m := reUnlink.FindStringSubmatch(line); m != nil && strings.HasPrefix(m[1], sub) {
+			ops = append(ops, "unlink:"+short(m[1]))
+			delete(written, m[1])
 		} else if m := reRename.FindStringSubmatch(line); m != nil && strings.HasPrefix(m[2], sub) {
 			ops = append(ops, "rename:"+short(m[1])+":"+short(m[2]))
 			written[m[2]] = written[m[1]]
